@@ -31,6 +31,7 @@ func (k Kind) String() string { return [...]string{"unary", "client", "server", 
 // HandlerCfg is the configuration of one shared Handler set (one Handler per
 // RPC kind is built from it).
 type HandlerCfg struct {
+	StrictCodec bool     // the handler's codecs marshal the service's own message type only (the Codec contract allows that): a gRPC Status cannot be marshalled
 	Scratch     bool     // as ClientCfg.Scratch, on the handler side
 	Comp        []string // custom algorithms in registration order (gzip is always registered first by the library)
 	NilComp     []string // names passed to WithCompression with nil constructors: documented as a no-op
